@@ -128,6 +128,22 @@ def explore(chk, rnd, tier):
         ])
         reqs.append({"op": "query", "doc": enc_val(dd), "sql": sql, "wrapped": "root." in sql})
         tags.append(sql)
+    # tables that hold NULL entries and scalars between their rows (skipped, rejected or tolerated — never compacted in place)
+    for _ in range(n // 16):
+        def holes():
+            out = []
+            for i in range(rnd.randint(1, 5)):
+                out.append(rnd.choice([{"id": i, "a": rnd.choice([1, 2])}, {"id": i, "a": rnd.choice([1, 2])}, None, None, 7, "s"]))
+            return out
+        dd = {"orders": holes(), "users": holes(), "t": [{"id": 1, "items": holes()}, {"id": 2, "items": holes()}]}
+        sql = rnd.choice([
+            "SELECT id FROM orders", "SELECT id FROM orders WHERE a = 1 ORDER BY id DESC", "SELECT COUNT(*) AS n FROM orders",
+            "SELECT * FROM orders JOIN users ON orders.id = users.id", "SELECT * FROM orders o LEFT JOIN users u ON o.id = u.id",
+            "SELECT id FROM t WHERE EXISTS (SELECT * FROM items WHERE a = 1)", "SELECT id, (SELECT id FROM items) AS s FROM t",
+            "SELECT id FROM orders UNION SELECT id FROM users", "SELECT DISTINCT a FROM orders", "SELECT a, COUNT(*) AS n FROM users GROUP BY a",
+        ])
+        reqs.append({"op": "query", "doc": enc_val(dd), "sql": sql, "wrapped": False})
+        tags.append(sql)
     # every failure point of fault-injected queries
     fcases = []
     for _ in range(60 if tier == "quick" else 800):
